@@ -364,6 +364,18 @@ class PySizedIterator(PyIterator):
         return f'PySizedIterator(<{len(self.planted)} planted>)'
 
 
+class PyCollectionIterator(PySizedIterator):
+    """One-shot iterator that structurally is a collections.abc.Collection as well (__len__ + __contains__ +
+    __iter__): a cursor / result-set object.  iter() of it is itself, so next(iter(obj)) consumes an item."""
+    def __contains__(self, x):
+        LOG.append((self._tag, 'contains', None))
+        return False
+
+    def __repr__(self):
+        LOG.append((self._tag, 'repr', None))
+        return f'PyCollectionIterator(<{len(self.planted)} planted>)'
+
+
 class PySizedIterable(PyIterable):
     """Re-iterable with __len__ but without __contains__: not a Collection either."""
     def __len__(self):
